@@ -3,12 +3,14 @@
     dec-data  {"ids":[..],"compressed":b,"n":k,"bits":"0101.."}      -> subsets (labels, values, links), bits left
     enc-data  {"ids":[..],"compressed":b,"vals":[[..],..]}            -> bits, labels/links per subset
     gen-data  {"ids":[..],"n":k,"shared":b,"rnd":"0101..","force":[[id,[v,..]],..]} -> value lists conforming to the template
+  every op: optional "fix_ncep": true applies `_fix_ncep_descriptors` to the template (Msg/TableDef.lean)
   Values: null = missing | integer | {"m":m,"s":s} = m·10^(-s) | {"b":"hex"} = bytes.
 -/
 import BufrModel.Coder.Decode
 import BufrModel.Coder.Encode
 import BufrModel.Coder.Gen
 import BufrModel.Drv.State
+import BufrModel.Msg.TableDef
 open Lean
 namespace Bufr.Drv
 
@@ -53,7 +55,9 @@ def errJson (e : Err) : Json := jobj [("err", jstr e.tag)]
 
 def getTemplate (st : DrvState) (j : Json) : J (Except Err (List Desc)) := do
   let ids ← (← asList (← fld j "ids")).mapM asNat
-  pure (build st.tables ids)
+  -- "fix_ncep": `template_from_ids` when extra (in-stream) table entries exist (C20)
+  let fix ← asBool (fldD j "fix_ncep" (Json.bool false))
+  pure (TableDef.templateFromIds st.tables fix ids)
 
 def opDecData (st : DrvState) (j : Json) : J (DrvState × Json) := do
   let t ← getTemplate st j
